@@ -16,6 +16,12 @@ func Yield(point string) {}
 // Gate blocks at a named point until released (no-op without the verif tag).
 func Gate(point string) {}
 
+// Words renders 64-bit words as hex ("" without the verif tag).
+func Words(w []uint64) string { return "" }
+
+// Bytes renders a byte string as hex ("" without the verif tag).
+func Bytes(p []byte) string { return "" }
+
 // Step is Yield followed by Gate (no-op without the verif tag).
 func Step(point string) {}
 
